@@ -50,13 +50,13 @@ def gen_float(rng):
 
 
 def gen_string_piece(rng, is_bytes):
-  body = rng.choice(['', 'a', 'hello world', 'it\\\'s', 'tab\\there', 'q\\"q', '\\\\', '#not a comment', 'x' * 30,
+  body = rng.choice(['', 'a', 'hello world', 'it\\\'s', 'tab\\there', 'raw\ttab', '\t', 'q\\"q', '\\\\', '#not a comment', 'x' * 30,
                      '\\x41', '\\n', "'" if rng.random() < 0.5 else '"'])
   quote = rng.choice(["'", '"', "'''", '"""'])
   if quote[0] in body and '\\' + quote[0] not in body:
     body = body.replace(quote[0], '')
   if len(quote) == 3 and rng.random() < 0.3:
-    body = body + '\nsecond line'
+    body = body + rng.choice(['\nsecond line', '\n\tindented by a tab'])
   if is_bytes:
     prefix = rng.choice(['b', 'B', 'rb', 'Rb', 'bR', 'br'])
   else:
